@@ -9,10 +9,18 @@ use generic_array::GenericArray;
 use super::proto::*;
 use crate::{
     ff::{
-        Field, Fp31, Fp32BitPrime, Fp61BitPrime, MultiplyAccumulate, MultiplyAccumulator,
-        PrimeField, Serializable, U128Conversions, batch_invert,
+        ArrayAccess, Expand,
+        boolean::Boolean,
+        boolean_array::{BA3, BA4, BA5, BA6, BA7, BA8, BA16, BA20, BA32, BA64, BA96, BA112, BA144, BA256},
+        Field, Fp31, Fp32BitPrime, Fp61BitPrime, GaloisField, Gf2, Gf3Bit, Gf8Bit, Gf9Bit, Gf20Bit,
+        Gf32Bit, Gf40Bit, MultiplyAccumulate, MultiplyAccumulator, PrimeField, Serializable,
+        U128Conversions, batch_invert,
     },
-    secret_sharing::SharedValue,
+    protocol::{context::dzkp_field::DZKPBaseField, prss::FromRandom},
+    secret_sharing::{
+        SharedValue,
+        replicated::{ReplicatedSecretSharing, semi_honest::AdditiveShare},
+    },
 };
 
 fn raw<F: PrimeField + Serializable>(v: u128) -> F {
@@ -111,9 +119,331 @@ where
     }
 }
 
+// ------------------------------------------------------------------ binary fields
+// Request grammar:  c08.gf <Type> <op> <args…>
+//   add|sub|mul|addassign|subassign|mulassign a b | neg a | trunc v | tryfrom v | deser hex
+//   fromslice hex | cmp a b
+// Arithmetic responses: `<as_u128> <hex of serialize>` (value and raw store incl. padding bits).
+
+fn gf_show<G: GaloisField + Serializable>(x: G) -> String {
+    let mut buf = GenericArray::<u8, G::Size>::default();
+    x.serialize(&mut buf);
+    format!("{} {}", x.as_u128(), hex(&buf))
+}
+
+fn exec_gf<G>(op: &str, args: &[&str]) -> String
+where
+    G: GaloisField + Serializable + U128Conversions + Ord + for<'a> TryFrom<&'a [u8]>,
+{
+    let e = |s: &str| {
+        let v = s.parse::<u128>().unwrap();
+        assert!(v >> G::BITS == 0, "harness: operand {v} out of range");
+        G::truncate_from(v)
+    };
+    match op {
+        "add" => gf_show(e(args[0]) + e(args[1])),
+        "addassign" => {
+            let mut x = e(args[0]);
+            x += e(args[1]);
+            gf_show(x)
+        }
+        "sub" => gf_show(e(args[0]) - e(args[1])),
+        "subassign" => {
+            let mut x = e(args[0]);
+            x -= e(args[1]);
+            gf_show(x)
+        }
+        "mul" => gf_show(e(args[0]) * e(args[1])),
+        "mulassign" => {
+            let mut x = e(args[0]);
+            x *= e(args[1]);
+            gf_show(x)
+        }
+        "neg" => gf_show(-e(args[0])),
+        "trunc" => gf_show(G::truncate_from(args[0].parse::<u128>().unwrap())),
+        "tryfrom" => match G::try_from(args[0].parse::<u128>().unwrap()) {
+            Ok(v) => format!("ok {}", v.as_u128()),
+            Err(_) => "err".into(),
+        },
+        "deser" => {
+            let b = unhex(args[0]);
+            let mut buf = GenericArray::<u8, G::Size>::default();
+            if b.len() != buf.len() {
+                return "err".into();
+            }
+            buf.copy_from_slice(&b);
+            match G::deserialize(&buf) {
+                Ok(v) => format!("ok {}", v.as_u128()),
+                Err(_) => "err".into(),
+            }
+        }
+        "fromslice" => {
+            let b = unhex(args[0]);
+            match <G as TryFrom<&[u8]>>::try_from(b.as_slice()) {
+                Ok(v) => format!("ok {}", v.as_u128()),
+                Err(_) => "err".into(),
+            }
+        }
+        "cmp" => match e(args[0]).cmp(&e(args[1])) {
+            std::cmp::Ordering::Less => "0".into(),
+            std::cmp::Ordering::Equal => "1".into(),
+            std::cmp::Ordering::Greater => "2".into(),
+        },
+        _ => panic!("harness: unknown op {op}"),
+    }
+}
+
+// ------------------------------------------------------------------ Boolean and Boolean arrays
+// Request grammar:  c08.ba <Type> <op> <args…>   (array elements = hex of the raw store)
+//   add|sub|mul|addassign|subassign|mulassign a b | neg a | not a | mulbool a c | eq a b | deser hex
+//   get a i | set a i b | expand b | fromiter bits | tryfromvec bits | iter a | togf32 a
+//   small arrays: trunc v | tryfrom v | asu128 a        large arrays: fromrandom w0,w1
+//                   c08.bool <op> <args…>
+fn ba_raw<T: Serializable>(h: &str) -> T {
+    let b = unhex(h);
+    let mut buf = GenericArray::<u8, T::Size>::default();
+    assert!(b.len() == buf.len(), "harness: operand has wrong length");
+    buf.copy_from_slice(&b);
+    T::deserialize(&buf).unwrap_or_else(|_| panic!("harness: non-canonical operand {h}"))
+}
+
+fn ba_show<T: Serializable>(x: &T) -> String {
+    let mut buf = GenericArray::<u8, T::Size>::default();
+    x.serialize(&mut buf);
+    hex(&buf)
+}
+
+fn bit(s: &str) -> Boolean {
+    match s {
+        "0" => Boolean::FALSE,
+        "1" => Boolean::TRUE,
+        _ => panic!("harness: bad bit {s}"),
+    }
+}
+
+fn bits(s: &str) -> Vec<Boolean> {
+    if s == "-" {
+        return vec![];
+    }
+    s.chars().map(|c| if c == '1' { Boolean::TRUE } else { Boolean::FALSE }).collect()
+}
+
+macro_rules! exec_ba_common {
+    ($t:ty, $op:expr, $args:expr) => {{
+        let op: &str = $op;
+        let args: &[&str] = $args;
+        let e = |s: &str| ba_raw::<$t>(s);
+        match op {
+            "add" => Some(ba_show(&(e(args[0]) + e(args[1])))),
+            "addassign" => {
+                let mut x = e(args[0]);
+                x += e(args[1]);
+                Some(ba_show(&x))
+            }
+            "sub" => Some(ba_show(&(e(args[0]) - e(args[1])))),
+            "subassign" => {
+                let mut x = e(args[0]);
+                x -= e(args[1]);
+                Some(ba_show(&x))
+            }
+            "mul" => Some(ba_show(&(e(args[0]) * e(args[1])))),
+            "mulassign" => {
+                let mut x = e(args[0]);
+                x *= e(args[1]);
+                Some(ba_show(&x))
+            }
+            "neg" => Some(ba_show(&(-e(args[0])))),
+            "not" => Some(ba_show(&(!e(args[0])))),
+            "mulbool" => Some(ba_show(&(e(args[0]) * bit(args[1])))),
+            "eq" => Some(if e(args[0]) == e(args[1]) { "1".to_string() } else { "0".to_string() }),
+            "deser" => {
+                let b = unhex(args[0]);
+                let mut buf = GenericArray::<u8, <$t as Serializable>::Size>::default();
+                if b.len() != buf.len() {
+                    Some("err".to_string())
+                } else {
+                    buf.copy_from_slice(&b);
+                    Some(match <$t>::deserialize(&buf) {
+                        Ok(v) => format!("ok {}", ba_show(&v)),
+                        Err(_) => "err".into(),
+                    })
+                }
+            }
+            "get" => Some(match e(args[0]).get(args[1].parse::<usize>().unwrap()) {
+                Some(b) => format!("some {}", u8::from(bool::from(b))),
+                None => "none".into(),
+            }),
+            "set" => {
+                let mut x = e(args[0]);
+                x.set(args[1].parse::<usize>().unwrap(), bit(args[2]));
+                Some(ba_show(&x))
+            }
+            "expand" => Some(ba_show(&<$t as Expand<Boolean>>::expand(&bit(args[0])))),
+            "fromiter" => Some(ba_show(&bits(args[0]).into_iter().collect::<$t>())),
+            "tryfromvec" => Some(match <$t>::try_from(bits(args[0])) {
+                Ok(v) => format!("ok {}", ba_show(&v)),
+                Err(_) => "err".into(),
+            }),
+            "iter" => {
+                let x = e(args[0]);
+                let a: String = x.iter().map(|b| if bool::from(b) { '1' } else { '0' }).collect();
+                let b: String = x.into_iter().map(|b| if bool::from(b) { '1' } else { '0' }).collect();
+                assert_eq!(a, b, "harness: iter and into_iter differ");
+                Some(if a.is_empty() { "-".to_string() } else { a })
+            }
+            "togf32" => Some(match <Vec<Gf32Bit>>::try_from(e(args[0])) {
+                Ok(v) => nat_list(&v.iter().map(|g| g.as_u128()).collect::<Vec<_>>()),
+                Err(_) => "err".into(),
+            }),
+            _ => None,
+        }
+    }};
+}
+
+macro_rules! exec_ba_small {
+    ($t:ty, $op:expr, $args:expr) => {{
+        match exec_ba_common!($t, $op, $args) {
+            Some(r) => r,
+            None => match $op {
+                "trunc" => ba_show(&<$t>::truncate_from($args[0].parse::<u128>().unwrap())),
+                "tryfrom" => match <$t>::try_from($args[0].parse::<u128>().unwrap()) {
+                    Ok(v) => format!("ok {}", ba_show(&v)),
+                    Err(_) => "err".into(),
+                },
+                "asu128" => ba_raw::<$t>($args[0]).as_u128().to_string(),
+                o => panic!("harness: unknown op {o}"),
+            },
+        }
+    }};
+}
+
+macro_rules! exec_ba_large {
+    ($t:ty, $op:expr, $args:expr) => {{
+        match exec_ba_common!($t, $op, $args) {
+            Some(r) => r,
+            None => match $op {
+                "fromrandom" => {
+                    let w = parse_nat_list::<u128>($args[0]);
+                    let src = GenericArray::<u128, <$t as FromRandom>::SourceLength>::try_from_iter(w).expect("harness: word count");
+                    ba_show(&<$t as FromRandom>::from_random(src))
+                }
+                o => panic!("harness: unknown op {o}"),
+            },
+        }
+    }};
+}
+
+fn exec_bool(op: &str, args: &[&str]) -> String {
+    let s = |b: Boolean| u8::from(bool::from(b)).to_string();
+    match op {
+        "add" => s(bit(args[0]) + bit(args[1])),
+        "addassign" => {
+            let mut x = bit(args[0]);
+            x += bit(args[1]);
+            s(x)
+        }
+        "sub" => s(bit(args[0]) - bit(args[1])),
+        "subassign" => {
+            let mut x = bit(args[0]);
+            x -= bit(args[1]);
+            s(x)
+        }
+        "mul" => s(bit(args[0]) * bit(args[1])),
+        "mulassign" => {
+            let mut x = bit(args[0]);
+            x *= bit(args[1]);
+            s(x)
+        }
+        "neg" => s(-bit(args[0])),
+        "not" => s(!bit(args[0])),
+        "trunc" => s(Boolean::truncate_from(args[0].parse::<u128>().unwrap())),
+        "tryfrom" => match Boolean::try_from(args[0].parse::<u128>().unwrap()) {
+            Ok(v) => format!("ok {}", s(v)),
+            Err(_) => "err".into(),
+        },
+        "asu128" => bit(args[0]).as_u128().to_string(),
+        "ser" => ba_show(&bit(args[0])),
+        "deser" => {
+            let b = unhex(args[0]);
+            if b.len() != 1 {
+                return "err".into();
+            }
+            match Boolean::deserialize(GenericArray::from_slice(&b)) {
+                Ok(v) => format!("ok {}", s(v)),
+                Err(_) => "err".into(),
+            }
+        }
+        _ => panic!("harness: unknown op {op}"),
+    }
+}
+
+// ------------------------------------------------------------------ replicated shares, DZKP constants
+// c08.share3 <Field> add|sub s0 s1 s2 t0 t1 t2 | neg s0 s1 s2 | mulconst s0 s1 s2 c
+//   helper i holds AdditiveShare(s_i, s_{i+1}); response: l0 r0 l1 r1 l2 r2 after the local operation.
+fn exec_share3<F>(op: &str, args: &[&str]) -> String
+where
+    F: PrimeField + Serializable,
+{
+    let v: Vec<F> = args.iter().map(|s| raw::<F>(s.parse::<u128>().unwrap())).collect();
+    let helper = |s: &[F], i: usize| AdditiveShare::<F>::new(s[i], s[(i + 1) % 3]);
+    let mut out = vec![];
+    for i in 0..3 {
+        let r: AdditiveShare<F> = match op {
+            "add" => helper(&v[0..3], i) + helper(&v[3..6], i),
+            "sub" => helper(&v[0..3], i) - helper(&v[3..6], i),
+            "neg" => -helper(&v[0..3], i),
+            "mulconst" => helper(&v[0..3], i) * v[3],
+            _ => panic!("harness: unknown op {op}"),
+        };
+        out.push(r.left().as_u128().to_string());
+        out.push(r.right().as_u128().to_string());
+    }
+    out.join(" ")
+}
+
 pub fn exec(req: &str) -> String {
     let t: Vec<&str> = req.split(' ').collect();
     match t[0] {
+        "c08.share3" => match t[1] {
+            "Fp31" => exec_share3::<Fp31>(t[2], &t[3..]),
+            "Fp32BitPrime" => exec_share3::<Fp32BitPrime>(t[2], &t[3..]),
+            "Fp61BitPrime" => exec_share3::<Fp61BitPrime>(t[2], &t[3..]),
+            f => panic!("harness: unknown field {f}"),
+        },
+        "c08.const" => match t[1] {
+            "INVERSE_OF_TWO" => Fp61BitPrime::INVERSE_OF_TWO.as_u128().to_string(),
+            "MINUS_ONE_HALF" => Fp61BitPrime::MINUS_ONE_HALF.as_u128().to_string(),
+            "MINUS_TWO" => Fp61BitPrime::MINUS_TWO.as_u128().to_string(),
+            c => panic!("harness: unknown constant {c}"),
+        },
+        "c08.bool" => exec_bool(t[1], &t[2..]),
+        "c08.ba" => match t[1] {
+            "BA3" => exec_ba_small!(BA3, t[2], &t[3..]),
+            "BA4" => exec_ba_small!(BA4, t[2], &t[3..]),
+            "BA5" => exec_ba_small!(BA5, t[2], &t[3..]),
+            "BA6" => exec_ba_small!(BA6, t[2], &t[3..]),
+            "BA7" => exec_ba_small!(BA7, t[2], &t[3..]),
+            "BA8" => exec_ba_small!(BA8, t[2], &t[3..]),
+            "BA16" => exec_ba_small!(BA16, t[2], &t[3..]),
+            "BA20" => exec_ba_small!(BA20, t[2], &t[3..]),
+            "BA32" => exec_ba_small!(BA32, t[2], &t[3..]),
+            "BA64" => exec_ba_small!(BA64, t[2], &t[3..]),
+            "BA96" => exec_ba_small!(BA96, t[2], &t[3..]),
+            "BA112" => exec_ba_small!(BA112, t[2], &t[3..]),
+            "BA144" => exec_ba_large!(BA144, t[2], &t[3..]),
+            "BA256" => exec_ba_large!(BA256, t[2], &t[3..]),
+            f => panic!("harness: unknown boolean array {f}"),
+        },
+        "c08.gf" => match t[1] {
+            "Gf2" => exec_gf::<Gf2>(t[2], &t[3..]),
+            "Gf3Bit" => exec_gf::<Gf3Bit>(t[2], &t[3..]),
+            "Gf8Bit" => exec_gf::<Gf8Bit>(t[2], &t[3..]),
+            "Gf9Bit" => exec_gf::<Gf9Bit>(t[2], &t[3..]),
+            "Gf20Bit" => exec_gf::<Gf20Bit>(t[2], &t[3..]),
+            "Gf32Bit" => exec_gf::<Gf32Bit>(t[2], &t[3..]),
+            "Gf40Bit" => exec_gf::<Gf40Bit>(t[2], &t[3..]),
+            f => panic!("harness: unknown binary field {f}"),
+        },
         "c08.pf" => match t[1] {
             "Fp31" => exec_pf::<Fp31>(t[2], &t[3..]),
             "Fp32BitPrime" => exec_pf::<Fp32BitPrime>(t[2], &t[3..]),
@@ -267,6 +597,449 @@ fn verif_c08_prime() {
             gen_pf(rng, thorough, &mut out, "Fp31", u128::from(Fp31::PRIME), Fp31::BITS, 1);
             gen_pf(rng, thorough, &mut out, "Fp32BitPrime", u128::from(Fp32BitPrime::PRIME), Fp32BitPrime::BITS, 4);
             gen_pf(rng, thorough, &mut out, "Fp61BitPrime", u128::from(Fp61BitPrime::PRIME), Fp61BitPrime::BITS, 8);
+            out
+        },
+        exec,
+    );
+}
+
+// GF(2)[x] arithmetic on bit patterns (harness-side search for factors of POLYNOMIAL, degree <= 63).
+fn poly_divmod(mut a: u128, m: u128) -> (u128, u128) {
+    let dm = 127 - m.leading_zeros();
+    let mut q = 0u128;
+    while a != 0 && 127 - a.leading_zeros() >= dm {
+        let s = (127 - a.leading_zeros()) - dm;
+        q ^= 1 << s;
+        a ^= m << s;
+    }
+    (q, a)
+}
+
+fn poly_mulmod(a: u128, b: u128, m: u128) -> u128 {
+    let mut r = 0u128;
+    let mut a = a;
+    let mut b = b;
+    while b != 0 {
+        if b & 1 == 1 {
+            r ^= a;
+        }
+        a <<= 1;
+        b >>= 1;
+    }
+    poly_divmod(r, m).1
+}
+
+fn poly_gcd(mut a: u128, mut b: u128) -> u128 {
+    while b != 0 {
+        let r = poly_divmod(a, b).1;
+        a = b;
+        b = r;
+    }
+    a
+}
+
+/// A non-trivial factor of `p` over GF(2), if `p` is reducible: gcd(p, x^(2^i) - x) collects all
+/// irreducible factors of degree dividing i.
+fn poly_factor(p: u128) -> Option<u128> {
+    let k = 127 - p.leading_zeros();
+    if k <= 1 {
+        return None;
+    }
+    let mut x2i: u128 = 2;
+    for i in 1..=(k / 2) {
+        x2i = poly_mulmod(x2i, x2i, p);
+        let g = poly_gcd(p, x2i ^ 2);
+        if g != 1 {
+            if g != p {
+                return Some(g);
+            }
+            // all irreducible factors have degree dividing i (small): trial division
+            for f in 2u128..(1u128 << (i + 1)) {
+                if f != p && poly_divmod(p, f).1 == 0 {
+                    return Some(f);
+                }
+            }
+            return None;
+        }
+    }
+    None
+}
+
+fn gen_gf(rng: &mut Rng, thorough: bool, out: &mut Vec<String>, name: &str, bits: u32, poly: u128, bytes: usize) {
+    let f = name;
+    let n: u128 = 1u128 << bits;
+    let mask = n - 1;
+    // negation side of the field certificate: a non-trivial factorisation POLYNOMIAL = g * h gives the
+    // zero-divisor pair (g, h), tried first on the real code.
+    if let Some(g) = poly_factor(poly) {
+        let (h, r) = poly_divmod(poly, g);
+        assert!(r == 0, "harness: factor search is broken");
+        if g >> bits == 0 && h >> bits == 0 {
+            out.push(format!("c08.gf {f} mul {g} {h}"));
+            out.push(format!("c08.gf {f} mul {h} {g}"));
+        }
+    }
+    let mut boundary: Vec<u128> = vec![0, 1, 2, 3, mask, mask - 1 & mask, mask >> 1, (mask >> 1) + 1, poly & mask, (poly >> 1) & mask];
+    for j in 0..bits {
+        boundary.push(1u128 << j);
+        boundary.push(((1u128 << j) + 1) & mask);
+        boundary.push(((1u128 << j).wrapping_sub(1)) & mask);
+    }
+    boundary.sort_unstable();
+    boundary.dedup();
+    let exhaustive_pairs = bits <= 8;
+    let elems: Vec<u128> = if bits <= 9 {
+        (0..n).collect()
+    } else {
+        let mut v = boundary.clone();
+        for _ in 0..(if thorough { 400 } else { 60 }) {
+            v.push(rng.next_u128() & mask);
+        }
+        v
+    };
+    for &a in &elems {
+        out.push(format!("c08.gf {f} neg {a}"));
+        if bits > 9 || a % 8 == 0 {
+            out.push(format!("c08.gf {f} mul {a} {a}"));
+        }
+    }
+    let mut pairs: Vec<(u128, u128)> = vec![];
+    if exhaustive_pairs {
+        for a in 0..n {
+            for b in 0..n {
+                pairs.push((a, b));
+            }
+        }
+    } else {
+        let cap = if thorough { 40_000 } else { 2_500 };
+        'outer: for &x in &boundary {
+            for &y in &boundary {
+                if pairs.len() >= cap {
+                    break 'outer;
+                }
+                if x < 4 || y < 4 || x + 4 > mask || y + 4 > mask || (x ^ y) % 5 == 0 {
+                    pairs.push((x, y));
+                }
+            }
+        }
+        for _ in 0..(if thorough { 20_000 } else { 1_500 }) {
+            pairs.push((rng.next_u128() & mask, rng.next_u128() & mask));
+        }
+        if bits == 9 && thorough {
+            for a in 0..n {
+                for b in 0..n {
+                    pairs.push((a, b));
+                }
+            }
+        }
+    }
+    let dense = pairs.len() > 10_000;
+    for (i, &(a, b)) in pairs.iter().enumerate() {
+        out.push(format!("c08.gf {f} mul {a} {b}"));
+        if !dense || i % 7 == 0 || a < 2 || b < 2 {
+            out.push(format!("c08.gf {f} add {a} {b}"));
+            out.push(format!("c08.gf {f} sub {a} {b}"));
+        }
+        if i % 16 == 0 {
+            out.push(format!("c08.gf {f} mulassign {a} {b}"));
+            out.push(format!("c08.gf {f} addassign {a} {b}"));
+            out.push(format!("c08.gf {f} subassign {a} {b}"));
+            out.push(format!("c08.gf {f} cmp {a} {b}"));
+        }
+    }
+    // conversions from u128
+    let mut vs: Vec<u128> = vec![0, 1, mask, n, n + 1, 2 * n - 1, u128::MAX, u128::MAX - 1, u128::MAX / 2];
+    for j in 0..128u32 {
+        let x = 1u128 << j;
+        vs.extend_from_slice(&[x, x - 1, x.wrapping_add(1), x | mask, x | (mask >> 1)]);
+    }
+    for _ in 0..(if thorough { 1_000 } else { 60 }) {
+        vs.push(rng.next_u128());
+        vs.push(rng.next_u128() >> (rng.below(128) as u32));
+    }
+    vs.sort_unstable();
+    vs.dedup();
+    for v in &vs {
+        out.push(format!("c08.gf {f} trunc {v}"));
+        out.push(format!("c08.gf {f} tryfrom {v}"));
+    }
+    // raw store patterns: every byte pattern for one-byte stores, else boundaries + random
+    let max_store: u128 = (1u128 << (8 * bytes)) - 1;
+    let mut raws: Vec<u128> = if bytes == 1 {
+        (0..=255).collect()
+    } else {
+        let mut r = vec![0, 1, mask, n, n + 1, n | 1, max_store, max_store - 1, mask ^ max_store];
+        for j in bits..(8 * bytes as u32) {
+            r.push(1u128 << j);
+            r.push((1u128 << j) | (rng.next_u128() & mask));
+        }
+        r
+    };
+    for _ in 0..(if thorough { 400 } else { 40 }) {
+        raws.push(rng.next_u128() & max_store);
+        raws.push(rng.next_u128() & mask);
+    }
+    for r in raws {
+        out.push(format!("c08.gf {f} deser {}", hex(&r.to_le_bytes()[..bytes])));
+    }
+    out.push(format!("c08.gf {f} deser {}", hex(&vec![0u8; bytes + 1])));
+    for len in 0..=(bytes + 1) {
+        out.push(format!("c08.gf {f} fromslice {}", hex(&rng.bytes(len))));
+        out.push(format!("c08.gf {f} fromslice {}", hex(&vec![0xffu8; len])));
+    }
+}
+
+#[test]
+fn verif_c08_gf() {
+    run_suite(
+        "c08_gf",
+        |rng, thorough| {
+            let mut out = vec![];
+            gen_gf(rng, thorough, &mut out, "Gf2", Gf2::BITS, Gf2::POLYNOMIAL, 1);
+            gen_gf(rng, thorough, &mut out, "Gf3Bit", Gf3Bit::BITS, Gf3Bit::POLYNOMIAL, 1);
+            gen_gf(rng, thorough, &mut out, "Gf8Bit", Gf8Bit::BITS, Gf8Bit::POLYNOMIAL, 1);
+            gen_gf(rng, thorough, &mut out, "Gf9Bit", Gf9Bit::BITS, Gf9Bit::POLYNOMIAL, 2);
+            gen_gf(rng, thorough, &mut out, "Gf20Bit", Gf20Bit::BITS, Gf20Bit::POLYNOMIAL, 3);
+            gen_gf(rng, thorough, &mut out, "Gf32Bit", Gf32Bit::BITS, Gf32Bit::POLYNOMIAL, 4);
+            gen_gf(rng, thorough, &mut out, "Gf40Bit", Gf40Bit::BITS, Gf40Bit::POLYNOMIAL, 5);
+            out
+        },
+        exec,
+    );
+}
+
+fn le_hex(bytes: usize, v: &[u8]) -> String {
+    let mut b = v.to_vec();
+    b.resize(bytes, 0);
+    hex(&b[..bytes])
+}
+
+/// canonical element of a `bits`-wide array from random bytes
+fn ba_elem(rng: &mut Rng, bits: usize, kind: usize) -> String {
+    let bytes = (bits + 7) / 8;
+    let mut b = match kind {
+        0 => vec![0u8; bytes],
+        1 => vec![0xffu8; bytes],
+        2 => {
+            let mut v = vec![0u8; bytes];
+            v[0] = 1;
+            v
+        }
+        3 => {
+            // only the top bit
+            let mut v = vec![0u8; bytes];
+            v[(bits - 1) / 8] = 1 << ((bits - 1) % 8);
+            v
+        }
+        4 => {
+            let mut v = vec![0xaau8; bytes];
+            v[0] = 0xa5;
+            v
+        }
+        _ => rng.bytes(bytes),
+    };
+    if bits % 8 != 0 {
+        b[bytes - 1] &= (1u8 << (bits % 8)) - 1;
+    }
+    hex(&b)
+}
+
+fn gen_ba(rng: &mut Rng, thorough: bool, out: &mut Vec<String>, name: &str, bits: usize, small: bool) {
+    let f = name;
+    let bytes = (bits + 7) / 8;
+    let exhaustive = bits <= 8;
+    let elems: Vec<String> = if exhaustive {
+        (0u32..(1 << bits)).map(|v| le_hex(bytes, &v.to_le_bytes())).collect()
+    } else {
+        let mut v: Vec<String> = (0..5).map(|k| ba_elem(rng, bits, k)).collect();
+        for _ in 0..(if thorough { 200 } else { 30 }) {
+            v.push(ba_elem(rng, bits, 9));
+        }
+        v
+    };
+    for a in &elems {
+        out.push(format!("c08.ba {f} not {a}"));
+        out.push(format!("c08.ba {f} neg {a}"));
+        out.push(format!("c08.ba {f} mulbool {a} 0"));
+        out.push(format!("c08.ba {f} mulbool {a} 1"));
+        out.push(format!("c08.ba {f} iter {a}"));
+        out.push(format!("c08.ba {f} togf32 {a}"));
+        if small {
+            out.push(format!("c08.ba {f} asu128 {a}"));
+        }
+    }
+    let mut pairs: Vec<(String, String)> = vec![];
+    if exhaustive {
+        for a in &elems {
+            for b in &elems {
+                pairs.push((a.clone(), b.clone()));
+            }
+        }
+    } else {
+        for a in elems.iter().take(8) {
+            for b in elems.iter().take(8) {
+                pairs.push((a.clone(), b.clone()));
+            }
+        }
+        for _ in 0..(if thorough { 2_000 } else { 150 }) {
+            pairs.push((ba_elem(rng, bits, 9), ba_elem(rng, bits, 9)));
+        }
+    }
+    let dense = pairs.len() > 5_000;
+    for (i, (a, b)) in pairs.iter().enumerate() {
+        out.push(format!("c08.ba {f} add {a} {b}"));
+        out.push(format!("c08.ba {f} mul {a} {b}"));
+        if !dense || i % 5 == 0 {
+            out.push(format!("c08.ba {f} sub {a} {b}"));
+            out.push(format!("c08.ba {f} eq {a} {b}"));
+        }
+        if i % 11 == 0 {
+            out.push(format!("c08.ba {f} addassign {a} {b}"));
+            out.push(format!("c08.ba {f} subassign {a} {b}"));
+            out.push(format!("c08.ba {f} mulassign {a} {b}"));
+        }
+    }
+    // get / set on boundaries
+    for a in elems.iter().take(if exhaustive { 256 } else { 12 }) {
+        for i in [0usize, 1, bits / 2, bits - 1, bits, bits + 1, 8 * bytes - 1, 8 * bytes, 1000] {
+            out.push(format!("c08.ba {f} get {a} {i}"));
+            if i < bits {
+                out.push(format!("c08.ba {f} set {a} {i} 0"));
+                out.push(format!("c08.ba {f} set {a} {i} 1"));
+            }
+        }
+    }
+    out.push(format!("c08.ba {f} expand 0"));
+    out.push(format!("c08.ba {f} expand 1"));
+    // iterators / vectors of Booleans: exact, short, long
+    for len in [0usize, 1, bits - 1, bits, bits + 1, bits + 9] {
+        for k in 0..3 {
+            let s: String = (0..len).map(|i| match k { 0 => '1', 1 => if i % 2 == 0 { '1' } else { '0' }, _ => if rng.bool() { '1' } else { '0' } }).collect();
+            let s = if s.is_empty() { "-".to_string() } else { s };
+            out.push(format!("c08.ba {f} fromiter {s}"));
+            out.push(format!("c08.ba {f} tryfromvec {s}"));
+        }
+    }
+    // raw store patterns: all bytes for one-byte stores; padding patterns otherwise
+    let mut raws: Vec<Vec<u8>> = vec![];
+    if bytes == 1 {
+        for v in 0..=255u8 {
+            raws.push(vec![v]);
+        }
+    } else {
+        raws.push(vec![0; bytes]);
+        raws.push(vec![0xff; bytes]);
+        for j in (bits.saturating_sub(2))..(8 * bytes) {
+            let mut v = vec![0u8; bytes];
+            v[j / 8] |= 1 << (j % 8);
+            raws.push(v.clone());
+            let mut w = rng.bytes(bytes);
+            w[j / 8] |= 1 << (j % 8);
+            raws.push(w);
+        }
+        for _ in 0..(if thorough { 200 } else { 20 }) {
+            raws.push(rng.bytes(bytes));
+        }
+    }
+    for r in raws {
+        out.push(format!("c08.ba {f} deser {}", hex(&r)));
+    }
+    out.push(format!("c08.ba {f} deser {}", hex(&vec![0u8; bytes + 1])));
+    out.push(format!("c08.ba {f} deser {}", hex(&vec![0u8; bytes - 1])));
+    if small {
+        let n_mask: u128 = if bits >= 128 { u128::MAX } else { (1u128 << bits) - 1 };
+        let mut vs: Vec<u128> = vec![0, 1, n_mask, n_mask.wrapping_add(1), n_mask.wrapping_add(2), u128::MAX, u128::MAX - 1, u128::MAX / 2];
+        for j in 0..128u32 {
+            let x = 1u128 << j;
+            vs.extend_from_slice(&[x, x - 1, x.wrapping_add(1), x | n_mask]);
+        }
+        for _ in 0..(if thorough { 500 } else { 40 }) {
+            vs.push(rng.next_u128());
+            vs.push(rng.next_u128() >> (rng.below(128) as u32));
+        }
+        vs.sort_unstable();
+        vs.dedup();
+        for v in vs {
+            out.push(format!("c08.ba {f} trunc {v}"));
+            out.push(format!("c08.ba {f} tryfrom {v}"));
+        }
+    } else {
+        for k in 0..(if thorough { 100 } else { 12 }) {
+            let (a, b) = match k {
+                0 => (0, 0),
+                1 => (u128::MAX, u128::MAX),
+                2 => (1, 1u128 << 127),
+                _ => (rng.next_u128(), rng.next_u128()),
+            };
+            out.push(format!("c08.ba {f} fromrandom {a},{b}"));
+        }
+    }
+}
+
+#[test]
+fn verif_c08_ba() {
+    run_suite(
+        "c08_ba",
+        |rng, thorough| {
+            let mut out = vec![];
+            for (a, b) in [("0", "0"), ("0", "1"), ("1", "0"), ("1", "1")] {
+                for op in ["add", "sub", "mul", "addassign", "subassign", "mulassign"] {
+                    out.push(format!("c08.bool {op} {a} {b}"));
+                }
+            }
+            for a in ["0", "1"] {
+                for op in ["neg", "not", "asu128", "ser"] {
+                    out.push(format!("c08.bool {op} {a}"));
+                }
+            }
+            for v in [0u128, 1, 2, 3, 255, 256, u128::MAX, u128::MAX - 1, 1 << 64, (1 << 64) + 1] {
+                out.push(format!("c08.bool trunc {v}"));
+                out.push(format!("c08.bool tryfrom {v}"));
+            }
+            for b in 0..=255u8 {
+                out.push(format!("c08.bool deser {}", hex(&[b])));
+            }
+            out.push("c08.bool deser 0000".to_string());
+            for (name, bits, small) in [
+                ("BA3", 3usize, true), ("BA4", 4, true), ("BA5", 5, true), ("BA6", 6, true), ("BA7", 7, true), ("BA8", 8, true),
+                ("BA16", 16, true), ("BA20", 20, true), ("BA32", 32, true), ("BA64", 64, true), ("BA96", 96, true),
+                ("BA112", 112, true), ("BA144", 144, false), ("BA256", 256, false),
+            ] {
+                gen_ba(rng, thorough, &mut out, name, bits, small);
+            }
+            out
+        },
+        exec,
+    );
+}
+
+#[test]
+fn verif_c08_shares() {
+    run_suite(
+        "c08_shares",
+        |rng, thorough| {
+            let mut out = vec![];
+            for c in ["INVERSE_OF_TWO", "MINUS_ONE_HALF", "MINUS_TWO"] {
+                out.push(format!("c08.const {c}"));
+            }
+            for (f, p) in [
+                ("Fp31", u128::from(Fp31::PRIME)),
+                ("Fp32BitPrime", u128::from(Fp32BitPrime::PRIME)),
+                ("Fp61BitPrime", u128::from(Fp61BitPrime::PRIME)),
+            ] {
+                let corner = [0u128, 1, p - 1, p - 2, p / 2, p / 2 + 1];
+                let n = if thorough { 4_000 } else { 300 };
+                for k in 0..n {
+                    let mut e = |rng: &mut Rng| if k < 60 || rng.below(4) == 0 { *rng.pick(&corner) } else { rng.next_u128() % p };
+                    let v: Vec<u128> = (0..7).map(|_| e(rng)).collect();
+                    out.push(format!("c08.share3 {f} add {} {} {} {} {} {}", v[0], v[1], v[2], v[3], v[4], v[5]));
+                    out.push(format!("c08.share3 {f} sub {} {} {} {} {} {}", v[0], v[1], v[2], v[3], v[4], v[5]));
+                    out.push(format!("c08.share3 {f} neg {} {} {}", v[0], v[1], v[2]));
+                    out.push(format!("c08.share3 {f} mulconst {} {} {} {}", v[0], v[1], v[2], v[6]));
+                }
+                out.push(format!("c08.share3 {f} neg 0 0 0"));
+                out.push(format!("c08.share3 {f} sub 0 0 0 0 0 0"));
+            }
             out
         },
         exec,
